@@ -102,6 +102,13 @@ pub fn compile_ast(
     })
 }
 
+thread_local! { static WALL_HITS: std::cell::Cell<u64> = const { std::cell::Cell::new(0) }; }
+/// Number of runs on this thread ended by the wall-clock limit (the only clock-dependent outcome;
+/// checks that compare several runs of one program discard the case when this moved).
+pub fn wall_hits() -> u64 {
+    WALL_HITS.with(|w| w.get())
+}
+
 #[derive(Debug)]
 pub enum RunEnd {
     Value(Value),
@@ -180,6 +187,7 @@ pub fn run_sync_hook(
     let deadline = std::time::Instant::now() + std::time::Duration::from_secs(RUN_WALL_LIMIT_S);
     loop {
         if slices % 16 == 15 && std::time::Instant::now() > deadline {
+            WALL_HITS.with(|w| w.set(w.get() + 1));
             return Run { end: RunEnd::Diverged, executor, slices };
         }
         let (did, _action) = executor.step(quantum, 0);
